@@ -1,6 +1,6 @@
 (* C01 property theorems (reference semantics meta-theory and pipeline-stage theorems). *)
 From Coq Require Import ZArith String List.
-From SV Require Import Core.Syntax Core.Values Core.Sem Core.SemProofs.
+From SV Require Import Core.Syntax Core.Values Core.Sem Core.SemProofs Core.StrProofs Int.Str.
 From SV Require Import Core.Slice Core.SliceProofs Scope.Tree Scope.Model Scope.Spec Scope.Proofs.
 Import ListNotations.
 Open Scope string_scope.
@@ -94,6 +94,88 @@ Theorem C01_captured_only_if_nested_use : forall globals prog b,
   In (Model.CapLocal b) (Model.st_captured (snd (Model.resolve_prog globals prog))) ->
   In (snd b, Spec.BFrame (fst b) true) (Spec.resolve_prog_decl globals prog).
 Proof. exact Proofs.captured_only_if_nested_use. Qed.
+
+(* ---- strings (MiniStar stage 2): what the string operations of the reference semantics compute ---- *)
+(* sep.join(s.split(sep[, maxsplit])) == s for every non-empty separator and every limit *)
+Theorem C01_split_join_roundtrip : forall sep x maxsplit, sep <> "" ->
+  str_join sep (str_split sep x maxsplit) = x.
+Proof. exact split_join_roundtrip. Qed.
+
+(* s.strip(chars) / s.strip() is idempotent (f = the set of stripped characters) *)
+Theorem C01_strip_idempotent : forall f x, strip_by f (strip_by f x) = strip_by f x.
+Proof. exact strip_idem. Qed.
+
+Theorem C01_lstrip_result_starts_unstripped : forall f x c r, lstrip_by f x = String c r -> f c = false.
+Proof. exact lstrip_first. Qed.
+
+(* s.replace(a, a[, count]) == s, also for the empty string *)
+Theorem C01_replace_same_is_identity : forall x a count, str_replace x a a count = x.
+Proof. exact replace_same. Qed.
+
+Theorem C01_replace_absent_is_identity : forall x old new count, old <> "" ->
+  find_from old x 0 = None -> str_replace x old new count = x.
+Proof. exact replace_absent. Qed.
+
+(* s.find(p) is the position of the FIRST occurrence; no position at all when it reports none *)
+Theorem C01_find_first_occurrence : forall p x i0 i, find_from p x i0 = Some i ->
+  exists k, i = (i0 + k)%nat /\ (k <= String.length x)%nat /\ is_prefix p (sdrop k x) = true /\
+            forall j, (j < k)%nat -> is_prefix p (sdrop j x) = false.
+Proof. exact find_from_spec. Qed.
+
+Theorem C01_find_none_no_occurrence : forall p x i0, find_from p x i0 = None ->
+  forall j, (j <= String.length x)%nat -> is_prefix p (sdrop j x) = false.
+Proof. exact find_from_none. Qed.
+
+Theorem C01_find_whole_string : forall x p, str_find x p None None =
+  match find_from p x 0 with Some i => Some (Z.of_nat i) | None => None end.
+Proof. exact str_find_whole. Qed.
+
+(* s.startswith(p) holds exactly when p is a prefix of s *)
+Theorem C01_startswith_is_prefix : forall x p, str_method_pure x "startswith" [OStr p] [] = rbool (is_prefix p x).
+Proof. exact startswith_is_prefix. Qed.
+
+Theorem C01_is_prefix_spec : forall p x, is_prefix p x = true <-> exists r, x = String.append p r.
+Proof. exact is_prefix_spec. Qed.
+
+(* a, b, c = s.partition(sep): a + b + c == s *)
+Theorem C01_partition_concat : forall x sep,
+  let '(a, b, c) := str_partition x sep in String.append a (String.append b c) = x.
+Proof. exact partition_concat. Qed.
+
+Theorem C01_upper_idempotent : forall x, str_upper (str_upper x) = str_upper x.
+Proof. exact str_upper_idem. Qed.
+
+Theorem C01_lower_idempotent : forall x, str_lower (str_lower x) = str_lower x.
+Proof. exact str_lower_idem. Qed.
+
+(* "%d" % z is the decimal rendering of C10 (Int.Str.render, inverse of int()) *)
+Theorem C01_percent_d_is_render : forall z, percent_pure "%d" (OInt z) = rstr (render 10 z).
+Proof. exact percent_d_render. Qed.
+
+Theorem C01_percent_arity_errors : percent_pure "%d" (OTuple []) = rerr TypeErr /\
+  forall a b, percent_pure "%d" (OTuple [OInt a; OInt b]) = rerr TypeErr.
+Proof. split; [exact percent_not_enough | exact percent_too_many]. Qed.
+
+Theorem C01_percent_without_conversions : forall x, sexists (Ascii.eqb ch_pct) x = false ->
+  percent_pure x (OTuple []) = rstr x.
+Proof. exact percent_plain. Qed.
+
+Theorem C01_format_one_is_str : forall v t, str_obs v = Some t -> format_pure "{}" [v] [] = rstr t.
+Proof. exact format_one. Qed.
+
+Theorem C01_format_mixed_numbering_rejected : forall a b,
+  format_pure "{0}{}" [OInt a; OInt b] [] = rerr ValueErr /\ format_pure "{}{0}" [OInt a; OInt b] [] = rerr ValueErr.
+Proof. intros a b. split; [apply format_mix_rejected | apply format_mix_rejected']. Qed.
+
+(* the string layer inside whole programs: methods, "%", format with keyword arguments, repr, a failing index() *)
+Example C01_strings_nonvacuous :
+  run_program 50 [SAssign 1 (TVar "s") (EStr "a,b,,c");
+                  SExpr 2 (ECall (EVar "emit") [EMeth (EStr "-") "join" [EMeth (EVar "s") "split" [EStr ","] []] []] [] None None);
+                  SExpr 3 (ECall (EVar "emit") [EBin BMod (EStr "%s=%d %r") (ETuple [EStr "x"; EInt (-7); EList [EInt 1]])] [] None None);
+                  SExpr 4 (ECall (EVar "emit") [EMeth (EStr "{} {k!r} {{}}") "format" [EInt 1] [("k", EStr "q")]] [] None None);
+                  SExpr 5 (EMeth (EVar "s") "index" [EStr "z"] [])]
+  = ([OStr "a-b--c"; OStr "x=-7 [1]"; OStr "1 ""q"" {}"], Failed ValueErr (Some 5)).
+Proof. vm_compute. reflexivity. Qed.
 
 Example C01_runs_nonvacuous :
   run_program 50 [SAssign 1 (TVar "x") (EList [EInt 1; EInt 2]);
